@@ -25,7 +25,9 @@ SPEC = {
              "expired-unswept markers on memory / hybrid(memory) / single-node hybrid, the map padded with 3000 unrelated keys so "
              "that claims arrive during a pass; lease clause: the caller's ctx stays live while a node runs, the heartbeat goroutine started by the claim is "
              "identified by an inherited pprof label and its liveness is sampled from goroutine profiles; the `w` op is the 30 s "
-             "ticker firing: it renews (the loop's own renewNodeID) iff that goroutine is alive, else reports `dead`; time is "
+             "ticker firing: it renews (the loop's own renewNodeID) iff that goroutine is alive, else reports `dead`; a tick whose renewal fails although no storage fault was injected is reported as `dead` too (the claim "
+             "would lapse while the node runs); renewal programmes (1-2 holders ticking for 4 lease periods, then a late node) run "
+             "on every backend incl. hybrid over redis / memory and the single-node hybrid; time is "
              "virtual (fake-clock double, miniredis FastForward); release clause: a further Release() of an allocator that already released its id, driven through the real "
              "code, every schedule of length 6 over three nodes on every store kind (a release-own must answer an unreleased "
              "hand-out to the same caller); free-running contention without gates, incl. 700 rounds (quick) of N in {2,4,8} generators/allocators "
